@@ -61,6 +61,8 @@ def gen_treebank(rng, kmax=5, nmax=8, disc=True, repeat=True, words=None):
     ts = []
     if repeat and rng.random() < 0.25:
         return context_variants(rng)
+    if repeat and rng.random() < 0.12:
+        return lin_variants(rng)
     if rng.random() < 0.08:
         # a very flat constituent: more than ten children (two-digit variable numbers in RCG)
         from impl import mk_leaf, mk_node
@@ -117,6 +119,43 @@ def context_variants(rng):
             root = mk_node("VROOT", [p], edge="--", lemma="--", morph="--")
         root.data['sid'] = len(out) + 1
         out.append(root)
+    return out
+
+
+def lin_variants(rng):
+    """one bare rule of rank 3..4 with several linearizations (its constituent continuous in one sentence, with a gap at
+    different places in others), followed by further rules of rank >= 3: binarization symbols of different chains of
+    the same bare rule, and of the rules after it, must not collide"""
+    from impl import mk_leaf, mk_node
+    k = rng.randint(3, 4)
+    labs = [rng.choice(["A", "B", "C", "D"]) for _ in range(k)]
+    out = []
+
+    def sent(parent, gap_after):
+        kids, pos, filler = [], 1, None
+        for i in range(k):
+            kids.append(mk_leaf(pos, labs[i], "w" + "abcd"[i], "--", "--", "--"))
+            pos += 1
+            if gap_after is not None and i == gap_after:
+                filler = mk_leaf(pos, "F", "f", "--", "--", "--")
+                pos += 1
+        x = mk_node(parent, kids, edge="--", lemma="--", morph="--")
+        top = [x] + ([filler] if filler is not None else [])
+        if len(top) == 1:
+            top.append(mk_leaf(pos, "$.", ".", "--", "--", "--"))
+        root = mk_node("VROOT", top, edge="--", lemma="--", morph="--")
+        root.data['sid'] = len(out) + 1
+        out.append(root)
+    plan = [("S", None), ("S", rng.randint(0, k - 2))]
+    if rng.random() < 0.5:
+        plan.append(("S", rng.randint(0, k - 2)))
+    rng.shuffle(plan)
+    for _ in range(rng.randint(1, 2)):
+        plan.append((rng.choice(["T", "U", "S"]), rng.choice([None, 0, 1])))
+    if rng.random() < 0.3:
+        rng.shuffle(plan)
+    for parent, gap in plan:
+        sent(parent, gap)
     return out
 
 
